@@ -9,12 +9,14 @@ INCS := $(foreach d,common theta tuple hll cpc kll req quantiles fi count sampli
 CXXFLAGS := -std=c++17 $(OPT) -g1 $(SAN) -DDATASKETCHES_VERIF $(INCS) -fno-omit-frame-pointer -Wall -Wno-unused-function -Wno-unused-variable
 SIMH := $(wildcard sim/*.hpp) $(wildcard $(REPO)/*/include/*.hpp) $(wildcard $(REPO)/*/include/*.h)
 
-BINS := store_d store_q store_m
+BINS := store_d store_q store_m agg_theta agg_hll agg_cpc
 
 all: $(addprefix $(BUILD)/,$(BINS))
 
 $(BUILD)/store_d: worlds/store.cpp $(SIMH) Makefile ; @mkdir -p $(BUILD) && $(CXX) $(CXXFLAGS) -DGROUP_DISTINCT $< -o $@
 $(BUILD)/store_q: worlds/store.cpp $(SIMH) Makefile ; @mkdir -p $(BUILD) && $(CXX) $(CXXFLAGS) -DGROUP_QUANT $< -o $@
 $(BUILD)/store_m: worlds/store.cpp $(SIMH) Makefile ; @mkdir -p $(BUILD) && $(CXX) $(CXXFLAGS) -DGROUP_MISC $< -o $@
+
+$(BUILD)/%: worlds/%.cpp $(SIMH) Makefile ; @mkdir -p $(BUILD) && $(CXX) $(CXXFLAGS) $< -o $@
 
 .PHONY: all
